@@ -264,8 +264,11 @@ def can_drop_privileges():
         return False
 
 
-def run_bin(binpath, args, stdin=None, timeout=600, env=None, cwd=None, taskset=None, user=None):
+def run_bin(binpath, args, stdin=None, timeout=600, env=None, cwd=None, taskset=None, user=None, nofile=None):
+    """nofile: RLIMIT_NOFILE (soft = hard) for the child, as a container or a service unit would set it."""
     cmd = [binpath] + list(args)
+    if nofile:
+        cmd = ["prlimit", "--nofile=%d:%d" % (nofile, nofile)] + cmd
     if taskset:
         cmd = ["taskset", "-c", taskset] + cmd
     e = dict(GOENV)
